@@ -24,6 +24,23 @@ def run(ctx):
         for i in range(nk):
             S, R, L = gen.random_kripke_data(rng, 4)
             cases.append((logic, (S, R, {s: sorted(l) for s, l in L.items()}), rng.sample(pool, per), rng.randrange(10 ** 9)))
+    # structures with a component of >= 3 states visited before other DFS roots (SCC corner cases):
+    # a 3-cycle plus 1-2 extra states with random edges, everything labelled p with probability 0.8
+    eg = [('E', ('G', ('ap', 'p'))), ('A', ('F', ('not', ('ap', 'p')))), ('E', ('G', ('or', ('ap', 'p'), ('ap', 'q')))),
+          ('E', ('U', ('ap', 'p'), ('ap', 'q'))), ('A', ('G', ('E', ('F', ('ap', 'q')))))]
+    for i in range(300 if thorough else 60):
+        n = rng.choice([4, 4, 5])
+        R = [(0, 1), (1, 2), (2, 0)]
+        for s_ in range(3, n):
+            R.append((s_, rng.choice([s_, rng.randrange(n)])))
+            for _ in range(rng.randint(1, 2)):
+                R.append((rng.randrange(n), s_) if rng.random() < 0.5 else (s_, rng.randrange(n)))
+        R = sorted(set(R))
+        L = {s_: [a for a in ('p', 'q') if rng.random() < (0.8 if a == 'p' else 0.4)] for s_ in range(n)}
+        cases.append(('CTL', (list(range(n)), R, L), eg, rng.randrange(10 ** 9)))
+        if i % 3 == 0:
+            cases.append(('CTLS', (list(range(n)), R, L), eg[:3], rng.randrange(10 ** 9)))
+            cases.append(('LTL', (list(range(n)), R, L), [('A', ('F', ('G', ('ap', 'p')))), ('A', ('G', ('F', ('ap', 'q'))))], rng.randrange(10 ** 9)))
     driver.run_cases(
         ctx, 'renaming-reordering', 'vf.rtc.mc_rtc', 'check_presentation_case', cases, chunk=2,
         rule='%d seeded structures (<=4 states) per logic x formulas (12 CTL / 4 LTL / 4 CTL*) x 8 presentations: states renamed to strings, tuples, '
